@@ -40,6 +40,10 @@ class Outcome:
     def __repr__(self):
         return f'<{self.kind} {self.value!r}>'
 
+    @property
+    def where(self):
+        return getattr(self.value, 'where', None) if self.kind == 'raise' else None
+
 
 class Scenario:
     """handle passed to a scenario body; one instance per explored path"""
@@ -115,22 +119,15 @@ class Scenario:
             name += f'#{self.label}'
         if tag:
             name += f':{tag}'
-        goals = [goal]
-        if is_z3(goal) and z3.is_and(goal):
-            goals = list(goal.children())
-        out = []
-        for n, g in enumerate(goals):
-            meta = {'inputs': dict(self.inputs), 'scenario': self.label, 'func': self.func_name}
-            if finding:
-                meta['finding'] = finding
-            if note:
-                meta['note'] = note
-            if oracle or self.oracle:
-                meta['oracle'] = oracle or self.oracle
-            self._n += 1
-            meta['ordinal'] = self._n
-            out.append(self.run.oblige(name + (f'.{n + 1}' if len(goals) > 1 else ''), g, kind=kind, exact=exact,
-                                       meta=meta))
+        meta = {'inputs': dict(self.inputs), 'scenario': self.label, 'func': self.func_name}
+        if finding:
+            meta['finding'] = finding
+        if note:
+            meta['note'] = note
+        if oracle or self.oracle:
+            meta['oracle'] = oracle or self.oracle
+        out = self.run.oblige(name, goal, kind=kind, exact=exact, meta=meta)
+        out = out if isinstance(out, list) else [out]
         return out
 
 
